@@ -1,5 +1,7 @@
 import PprofVerif.Lemmas.Fetch
 import PprofVerif.Gen.FetchConsts
+import PprofVerif.Lemmas.ComposeParseMerge
+import PprofVerif.Lemmas.ComposeMergeSpec
 /-!
 # C16 — Multi-source fetch merges whatever succeeded, independent of timing
 
@@ -229,5 +231,76 @@ example :
       (outsOfBits 100 []) 0 []
     r.res = .err "failed to fetch any source profiles" ∧ r.srcPrinted.length = 3 := by
   decide
+
+/-! ## composed with C03 (and C02): `merge` is the model of `profile.Merge`
+
+`MergeSpec` is no longer an assumption: `Merge.merge_mergeSpec` (Lemmas/ComposeMergeSpec.lean)
+proves it for C03's model of `profile.Merge` with `abs p = Spec.weight p` (the weight function
+`StackKey → value vector`), `add = Merge.addW` (pointwise element-wise int64 sum) and
+`Good = Merge.GoodFor st pt` (valid, int64-typed, sample types `st`, period type `pt` — the
+profiles `Merge` accepts together).  What remains outside: `combineProfiles` also calls
+`CompatibilizeSampleTypes` and `ScaleProfiles` before `profile.Merge` (C07's subject); the
+statements below are about fetched profiles that already share their sample types. -/
+
+/-- **`chunked_eq_flat` for the real merge model.**  For every chunk size `c ≥ 1`, every outcome
+function whose successful profiles are valid, well typed and share sample types `st` and period
+type `pt`, and every complete schedule: fetching in chunks and folding with `Merge [p, chunkP]`
+prints the same lines, collects the same indices, counts the same, and returns a profile with the
+SAME WEIGHT for every stack as one flat `concurrentGrab` + `Merge` over all sources — namely the
+element-wise int64 sum of the weights of the successful sources, in command-line order. -/
+theorem chunked_eq_flat_for_merge (st : List ValueType) (pt : ValueType) (outs : Nat → Res ε Profile)
+    (c n : Nat) (hc1 : 1 ≤ c) (π : List Nat)
+    (hg : ∀ i p, i < n → outs i = .ok p → Merge.GoodFor st pt p) (hc : Complete π n) :
+    ∃ g g', chunkedGrab Merge.merge outs c n π = ⟨failures outs 0 n, .ok g⟩ ∧
+      concurrentGrab Merge.merge outs 0 n π = ⟨failures outs 0 n, .ok g'⟩ ∧
+      g.count = g'.count ∧ g.idx = g'.idx ∧ (g.p = none ↔ g'.p = none) ∧
+      (∀ p p', g.p = some p → g'.p = some p' → ∀ k, Spec.weight p k = Spec.weight p' k) ∧
+      GroupSpec (Merge.GoodFor st pt) (fun p => (Spec.weight p : Merge.WeightFn)) Merge.addW outs n
+        (failures outs 0 n) g := by
+  obtain ⟨g, g', h1, h2, h3, h4, h5, h6⟩ :=
+    chunked_eq_flat (Merge.merge_mergeSpec st pt) outs c n hc1 π hg hc
+  refine ⟨g, g', h1, h2, h4, h5, ?_, ?_, h6⟩
+  · cases hgp : g.p <;> cases hgp' : g'.p <;> simp [hgp, hgp'] at h3 ⊢
+  · intro p p' hp hp' k
+    rw [hp, hp'] at h3
+    simp only [Option.map_some, Option.some.injEq] at h3
+    exact congrFun h3 k
+
+/-- … and the merged source profile weighs, at every stack, the left-to-right element-wise int64
+sum of the successful sources' weights (the explicit form of `GroupSpec.abs_eq`). -/
+theorem chunked_weight_is_sum_for_merge (st : List ValueType) (pt : ValueType) (outs : Nat → Res ε Profile)
+    (c n : Nat) (hc1 : 1 ≤ c) (π : List Nat)
+    (hg : ∀ i p, i < n → outs i = .ok p → Merge.GoodFor st pt p) (hc : Complete π n)
+    (g : Grab Profile) (hgr : chunkedGrab Merge.merge outs c n π = ⟨failures outs 0 n, .ok g⟩)
+    (r : Profile) (hr : g.p = some r) (k : Spec.StackKey) :
+    ∃ x xs, successes outs 0 n = x :: xs ∧
+      Spec.weight r k = (xs.map (fun y => Spec.weight y.2 k)).foldl Spec.addV (Spec.weight x.2 k) := by
+  obtain ⟨g0, _, h1, _, _, _, _, _, h6⟩ := chunked_eq_flat_for_merge st pt outs c n hc1 π hg hc
+  rw [hgr] at h1
+  have hgg : g = g0 := by injection h1 with _ h1; injection h1
+  subst hgg
+  have habs := h6.abs_eq
+  rw [hr] at habs
+  cases hs : successes outs 0 n with
+  | nil => rw [hs] at habs; simp [absSum] at habs
+  | cons x xs =>
+    rw [hs] at habs
+    simp only [Option.map_some, List.map_cons, absSum, Option.some.injEq] at habs
+    refine ⟨x, xs, rfl, ?_⟩
+    have := congrFun habs k
+    rw [this, Merge.foldl_addW_apply, List.map_map]
+    rfl
+
+/-- every profile `ParseData` accepts (C02) with the agreed sample types and period type is `Good`:
+the hypothesis `hg` of the theorems above holds for whatever the fetcher parsed. -/
+theorem parsed_profile_good (b : Wire.Bytes) (p : Profile) (st : List ValueType) (pt : ValueType)
+    (h : Parse.parseData b = .ok p) (hst : p.sampleType = st) (hpt : p.periodType = some pt) :
+    Merge.GoodFor st pt p := by
+  obtain ⟨hv, ht⟩ := Merge.parsed_valid_typed b p h
+  exact ⟨hv, ht, hst, hpt⟩
+
+-- non-vacuity: the sample input of C02 yields a `Good` profile
+example : Merge.GoodFor [⟨[97], [98]⟩] ⟨[], []⟩ Parse.sampleParsed :=
+  parsed_profile_good Parse.sampleBytes _ _ _ Parse.parseData_sampleBytes rfl rfl
 
 end PV.Props.C16
